@@ -102,11 +102,13 @@ CLAIMED = {
         text='Proved for every FeatureIDE rule element (any nesting, any number of operands; the document is an element tree value): '
              '_parse_rule returns a tree in the library form whose truth value under every assignment is the one the format gives the element '
              '(n-ary conj / disj keep all operands, eq is an equivalence), and an element the library cannot represent raises; AFMReader.set_parse_tree '
-             'reports lexical and syntax errors to its collector only and never returns normally when the collector holds one. Bounded: documents '
+             'reports lexical and syntax errors to its collector only and never returns normally when the collector holds one; XMLReader.parse_ctc turns '
+             'a FaMa <requires> / <excludes> element into the constraint of that name and kind between the two named features and raises when the name '
+             'or a feature is missing. Bounded: documents '
              'from independent emitters for FeatureIDE, FaMa XML, AFM and Glencoe using each format\'s syntactic freedom, and the FaMa corpus '
              'against its Betty statistics.',
-        note=BASE + 'xml.etree Element modelled as a value (tag, text or None, ordered children); attributes are not modelled, so the feature-tree '
-                    'walks (mandatory flags, cardinalities) are bounded only. Termination of _parse_rule not proved (finite tree assumed).'),
+        note=BASE + 'xml.etree Element modelled as a value (tag, text or None, ordered children); attributes are uninterpreted functions of (element, key); the feature-tree '
+                    'walks (mandatory flags, cardinalities: loops that allocate objects) are bounded only. Termination of _parse_rule not proved (finite tree assumed).'),
     'C10': dict(category='other', design_ref='DESIGN.md section 4 C10, section 9',
         text='Deductive part: purity of both writers; the CNF chain the SPLOT export relies on (simplify_formula / propagate_negation / to_cnf: equivalence and '
              'normal forms, proved in C18 on the dependency source). Bounded: both exports interpreted by independent interpreters of SXFM and of the '
